@@ -42,6 +42,8 @@ def elem_kind(ds):
             if arr.dtype == object:
                 return 'str' if all(isinstance(v, (bytes, str)) for v in arr.reshape(-1)) else 'object'
             return arr.dtype.kind + str(arr.dtype.itemsize)
+        if np.dtype(dt).kind in 'SU':
+            return 'str'            # fixed-width text is text as well
         return np.dtype(dt).kind + str(np.dtype(dt).itemsize)
     import h5py
     if h5py.check_string_dtype(ds.dtype) is not None or ds.dtype.kind in 'SU':
